@@ -198,7 +198,7 @@ func parseContractFile(fset *token.FileSet, f *ast.File, pkg *packages.Package) 
 			case "split":
 				cur.Split = 16
 				if rest == "deep" {
-					cur.Split = 64
+					cur.Split = 512
 					cur.SplitDeep = true
 				} else if n, err := strconv.Atoi(rest); err == nil {
 					cur.Split = n
